@@ -29,7 +29,11 @@ func (a *SparseFloat32Vector) Equals(b ConstVector, epsilon float64) bool {
   for it := a.JOINT_ITERATOR(b); it.Ok(); it.Next() {
     s1, s2 := it.GET()
     if s1.ptr == nil {
-      return false
+      // a has no entry at this position, i.e. it is zero
+      if !s2.Equals(ConstFloat32(0.0), epsilon) {
+        return false
+      }
+      continue
     }
     if !s1.Equals(s2, epsilon) {
       return false
@@ -44,10 +48,18 @@ func (a *SparseFloat32Vector) EQUALS(b *SparseFloat32Vector, epsilon float64) bo
   for it := a.JOINT_ITERATOR_(b); it.Ok(); it.Next() {
     s1, s2 := it.GET()
     if s1.ptr == nil {
-      return false
+      // a has no entry at this position, i.e. it is zero
+      if !s2.Equals(ConstFloat32(0.0), epsilon) {
+        return false
+      }
+      continue
     }
     if s2.ptr == nil {
-      return false
+      // b has no entry at this position, i.e. it is zero
+      if !s1.Equals(ConstFloat32(0.0), epsilon) {
+        return false
+      }
+      continue
     }
     if !s1.EQUALS(s2, epsilon) {
       return false
